@@ -196,14 +196,20 @@ pub struct Request {
     /// a translation read once while the page is being built (a component body, `AsyncDerived::new(.. t_string! ..)`):
     /// index into EAGER_KEYS
     pub eager_build: Option<usize>,
+    /// the run-once access of `eager` happens after the future yielded once
+    pub eager_yield: bool,
+    /// the application provides a context of its own (`init_i18n_context_with_options` + `provide_context`) above the provider
+    pub outer_context: bool,
 }
 
 /// (namespace, label, expected text template) of the run-once accesses
-pub const EAGER_KEYS: &[(&str, &str, &str)] = &[("common", "common.bye", "bye[{L}] E"), ("common", "common.app.version", "app.version[{L}] 3")];
+pub const EAGER_KEYS: &[(&str, &str, &str)] = &[("common", "common.bye", "bye[{L}] E"), ("common", "common.app.version", "app.version[{L}] 3"), ("side-bar", "side-bar.entry", "side.entry[{L}] 9")];
 
 impl Request {
     fn enable_cookie(&self) -> bool {
-        self.provider != 1
+        // a provider below an existing context returns that context (documented): the page's main context is then the
+        // application's own, created with cookies disabled
+        self.provider != 1 && !self.outer_context
     }
     fn cookie_name(&self) -> &'static str {
         if self.provider == 2 {
@@ -233,7 +239,7 @@ impl Plan {
         json!({
             "requests": self.requests.iter().map(|r| json!({
                 "cookie": r.cookie, "accept": r.accept, "in_order": r.in_order, "start_at": r.start_at, "drop_after_chunks": r.drop_after_chunks,
-                "provider": r.provider, "under_suspense": r.under_suspense, "eager": r.eager.map(|(k, g)| json!([k, g])), "manual": r.manual, "lazy_set": r.lazy_set.map(|l| LOCS[l % LOCS.len()]), "eager_build": r.eager_build,
+                "provider": r.provider, "under_suspense": r.under_suspense, "eager": r.eager.map(|(k, g)| json!([k, g])), "manual": r.manual, "lazy_set": r.lazy_set.map(|l| LOCS[l % LOCS.len()]), "eager_build": r.eager_build, "eager_yield": r.eager_yield, "outer_context": r.outer_context,
                 "page": r.page.iter().map(|n| n.to_json()).collect::<Vec<_>>(),
             })).collect::<Vec<_>>(),
             "gates": self.gates, "policy": self.policy.name(), "schedule": schedule,
@@ -256,6 +262,8 @@ impl Plan {
                 manual: r["manual"].as_bool().unwrap_or(false),
                 lazy_set: LOCS.iter().position(|k| Some(*k) == r["lazy_set"].as_str()),
                 eager_build: r["eager_build"].as_u64().map(|k| k as usize),
+                eager_yield: r["eager_yield"].as_bool().unwrap_or(false),
+                outer_context: r["outer_context"].as_bool().unwrap_or(false),
             })
             .collect();
         let gates = v["gates"].as_array().map(|a| a.iter().map(|g| g.as_u64()).collect()).unwrap_or_default();
@@ -307,6 +315,8 @@ pub fn generate(rng: &mut Rng) -> Plan {
             manual: false,
             lazy_set: None,
             eager_build: None,
+            eager_yield: rng.chance(1, 3),
+            outer_context: rng.chance(1, 6),
         });
         if rng.chance(1, 5) {
             requests.last_mut().unwrap().eager_build = Some(rng.below(EAGER_KEYS.len()));
@@ -364,7 +374,13 @@ struct ResponseState {
 }
 
 fn page_view(r: Request, gates: Vec<Gate>, set_cookies: Arc<Mutex<ResponseState>>) -> impl IntoView {
-    let Request { page, cookie, accept, provider, under_suspense, eager, lazy_set, eager_build, .. } = r;
+    let Request { page, cookie, accept, provider, under_suspense, eager, lazy_set, eager_build, eager_yield, outer_context, .. } = r;
+    if outer_context {
+        // documented alternative to the provider component; here both are present, the provider below shadows it
+        let a = accept.clone();
+        let opts = leptos_i18n::context::I18nContextOptions::<Locale>::default().enable_cookie(false).ssr_lang_header_getter(UseLocalesOptions::default().ssr_lang_header_getter(move || Some(a.clone())));
+        provide_context(leptos_i18n::context::init_i18n_context_with_options(opts));
+    }
     let copts = {
         let sc = set_cookies.clone();
         CookieOptions::<Locale>::default().ssr_cookies_header_getter(move || Some(cookie.clone())).ssr_set_cookie(move |c| {
@@ -468,7 +484,8 @@ fn page_view(r: Request, gates: Vec<Gate>, set_cookies: Arc<Mutex<ResponseState>
             let i18n = use_i18n();
             let label = match k % EAGER_KEYS.len() {
                 0 => t_string!(i18n, common.bye, name = "E").now_or_never().map(|s| s.to_string()),
-                _ => t_string!(i18n, common.app.version, v = 3).now_or_never().map(|s| s.to_string()),
+                1 => t_string!(i18n, common.app.version, v = 3).now_or_never().map(|s| s.to_string()),
+                _ => t_string!(i18n, side_bar.entry, n = 9).now_or_never().map(|s| s.to_string()),
             }
             .unwrap_or_else(|| "<pending>".to_string());
             out.push(view! { <p data-b="1" title=label>"b"</p> }.into_any());
@@ -478,9 +495,14 @@ fn page_view(r: Request, gates: Vec<Gate>, set_cookies: Arc<Mutex<ResponseState>
             let gate = gates2.get(g).cloned().unwrap_or_default();
             let fut = Suspend::new(async move {
                 let i18n = use_i18n();
+                if eager_yield {
+                    // not ready when the page is first walked: the read happens at the future's second poll
+                    YieldOnce(false).await;
+                }
                 let label = match k % EAGER_KEYS.len() {
                     0 => t_string!(i18n, common.bye, name = "E").await.to_string(),
-                    _ => t_string!(i18n, common.app.version, v = 3).await.to_string(),
+                    1 => t_string!(i18n, common.app.version, v = 3).await.to_string(),
+                    _ => t_string!(i18n, side_bar.entry, n = 9).await.to_string(),
                 };
                 gate.wait().await;
                 view! { <p data-e="1" title=label>"e"</p> }
@@ -848,8 +870,15 @@ fn expect(r: &Request) -> Expect {
     }
     let build_locale = current;
     if let Some((k, _)) = r.eager {
-        // read once inside a future, at the future's first poll, which happens while the page is first walked
-        must.insert((LOCS[main_locale].to_string(), EAGER_KEYS[k % EAGER_KEYS.len()].0.to_string()));
+        let unit = (LOCS[main_locale].to_string(), EAGER_KEYS[k % EAGER_KEYS.len()].0.to_string());
+        if r.eager_yield && !r.under_suspense {
+            // read at the future's second poll: the shell (and the script in it) may already be on its way
+            may.insert(unit);
+        } else {
+            // read at the future's first poll, which happens while the page is first walked; or the whole provider
+            // waits under a Suspense boundary and renders, script included, once everything in it is ready
+            must.insert(unit);
+        }
     }
     Expect { main_locale, build_locale, must, may, texts }
 }
